@@ -322,7 +322,43 @@ func checkWire(ops []cop, b *commit.Buffer, chunks []commit.Chunk, isStr map[uin
 	if bad == "" && i != len(chunks) {
 		bad = fmt.Sprintf("Log.Range delivered %d of %d commits", i, len(chunks))
 	}
-	return bad
+	if bad != "" {
+		return bad
+	}
+	// a consumer that KEEPS the commits it is handed (a batching replica): every commit carries its
+	// own buffer - the operations of its chunk only - and must still decode to them after Range returned
+	file2 := &rwBuffer{}
+	lg2 := commit.Open(file2)
+	perChunk := map[commit.Chunk][]cop{}
+	for _, o := range ops {
+		perChunk[commit.Chunk(o.off>>14)] = append(perChunk[commit.Chunk(o.off>>14)], o)
+	}
+	for i, ch := range chunks {
+		bi := commit.NewBuffer(16)
+		bi.Reset("c")
+		for _, o := range perChunk[ch] {
+			writeOp(bi, o)
+		}
+		if err := lg2.Append(commit.Commit{ID: uint64(500 + i), Chunk: ch, Updates: []*commit.Buffer{bi}}); err != nil {
+			return "Log.Append: " + err.Error()
+		}
+	}
+	var kept []commit.Commit
+	if err := commit.Open(bytes.NewReader(file2.Bytes())).Range(func(c commit.Commit) error { kept = append(kept, c); return nil }); err != nil {
+		return "Log.Range: " + err.Error()
+	}
+	if len(kept) != len(chunks) {
+		return fmt.Sprintf("Log.Range delivered %d of %d commits", len(kept), len(chunks))
+	}
+	for i, c := range kept {
+		if c.ID != uint64(500+i) || c.Chunk != chunks[i] || len(c.Updates) != 1 {
+			return fmt.Sprintf("commit %d kept from Log.Range has id %d chunk %d and %d buffers", i, c.ID, c.Chunk, len(c.Updates))
+		}
+		if got := decodeChunk(c.Updates[0], c.Chunk, isStr); !sameOps(got, perChunk[c.Chunk]) {
+			return fmt.Sprintf("commit %d (chunk %d) kept from Log.Range no longer decodes to its own operations once Range has returned", i, c.Chunk)
+		}
+	}
+	return ""
 }
 
 // checkRewrite: a first reader replaces every merge by "old ++ delta" / "old + delta" through Swap*;
